@@ -402,6 +402,64 @@ def RawObs.buildL (thr : ThrCfg) : List (String × RawObs) → Option (List (Str
     | _, _ => none
 end
 
+/-! ## threshold validation (`AbstractObservation._validate_thresholds`, reached from the constructors' setters)
+
+Every `ApplicationObservation` / `FileObservation` / `NICObservation` that is constructed with a `thresholds` dictionary holding its
+key (`app_executions` / `file_access` / `nmne`) hands `[low, medium, high]` to `_validate_thresholds`, which RAISES unless the
+triple is strictly ascending; a component constructed without the key (padding slots: no dictionary is handed on) takes the class
+defaults 0 / 5 / 10.  So the construction of a whole tree succeeds exactly when the triple held by EVERY constructed component is
+strictly ascending (`Obs.thrValid`; the defaults are).  `Gen/ObsTables.validateThresholds` is the translated method body,
+`C09_gen_validate_thresholds` proves it equal to `Thr.valid` on every triple. -/
+
+def Thr.valid (t : Thr) : Bool := decide (t.low < t.med) && decide (t.med < t.high)
+
+def HostObs.thrValid (o : HostObs) : Bool :=
+  o.apps.all (fun a => a.thr.valid) && o.folders.all (fun f => f.files.all (fun x => x.thr.valid)) && o.nics.all (fun n => n.thr.valid)
+
+mutual
+def Obs.thrValid : Obs → Bool
+  | .app o => o.thr.valid
+  | .file o => o.thr.valid
+  | .nic o => o.thr.valid
+  | .folder o => o.files.all (fun x => x.thr.valid)
+  | .host o => o.thrValid
+  | .nodes o => o.hosts.all (fun h => h.thrValid)
+  | .nested cs => Obs.thrValidL cs
+  | _ => true
+def Obs.thrValidL : List (String × Obs) → Bool
+  | [] => true
+  | c :: cs => c.2.thrValid && Obs.thrValidL cs
+end
+
+/-- the validation happens where components are CONSTRUCTED — before `HostObservation.__init__` truncates its lists to `num_*`: every
+listed application is constructed with the host's thresholds (so one listed application suffices, even with `num_applications: 0`),
+every listed folder constructs its listed files and its padding files with them, every listed and every automatically added
+interface likewise; the host's own padding slots are constructed without a thresholds dictionary -/
+def HostCfg.ctorThrValid (h : HostCfg) (e : HostEff) : Bool :=
+  (h.apps.isEmpty || (thrApp e.thr).valid) &&
+  h.folders.all (fun f => (f.files.isEmpty && e.numFiles.getD 0 == 0) || (thrFile e.thr).valid) &&
+  ((h.nics.isEmpty && e.numNics.getD 0 == 0) || (thrNmne e.thr).valid)
+
+def NodesCfg.ctorThrValid (thr : ThrCfg) (c : NodesCfg) : Bool := c.hosts.all (fun h => h.ctorThrValid (h.eff thr c))
+
+mutual
+def RawObs.ctorThrValid (thr : ThrCfg) : RawObs → Bool
+  | .nodes c => c.ctorThrValid thr
+  | .nested cs => RawObs.ctorThrValidL thr cs
+  | _ => true
+def RawObs.ctorThrValidL (thr : ThrCfg) : List (String × RawObs) → Bool
+  | [] => true
+  | c :: cs => c.2.ctorThrValid thr && RawObs.ctorThrValidL thr cs
+end
+
+/-- `ObservationManager(config).obs` INCLUDING the constructors' threshold validation: `none` when a schema / constructor refuses
+the section (`RawObs.build`) or when some component is CONSTRUCTED (kept or truncated away afterwards) with a threshold triple
+that is not strictly ascending -/
+def RawObs.buildV (thr : ThrCfg) (r : RawObs) : Option Obs :=
+  match r.build thr with
+  | some o => if r.ctorThrValid thr then some o else none
+  | none => none
+
 /-! ## gymnasium `flatten` / `flatten_space` on Discrete / Dict trees (trusted library, modelled to state what it gives)
 
 `flatten` concatenates the children of a `Dict` in the order of the space, a `Discrete(n)` leaf becomes a one-hot vector of length
@@ -480,7 +538,7 @@ def EpisodeCfg.accepts (e : EpisodeCfg) (o : Obs) : Bool := !e.flat || o.space.f
 /-- the agent's observation object for this episode, or `none` when the configuration is rejected (by an observation schema /
 constructor, or by the flatten guard) -/
 def EpisodeCfg.build (e : EpisodeCfg) : Option Obs :=
-  match e.raw.build e.thr with
+  match e.raw.buildV e.thr with
   | some o => if e.accepts o then some o else none
   | none => none
 
